@@ -248,8 +248,14 @@ def run_ed_block(inst):
         d = levenshtein(s, t)
         tb = t.encode()
         nontriv += 1 if (d > 0 and s and t and s[0] != t[0] and s[-1] != t[-1]) else 0
-        for band in range(-1, maxband + 1):
-            for a, b, kind in ((s, t, "str"), (sb, tb, "bytes")):
+        # the function must be pure: call it in different orders for different argument pairs
+        # (a result cached from a narrow band must not leak into a later, wider or unbanded call)
+        for a, b, kind in ((s, t, "str"), (sb, tb, "bytes")):
+            if kind == "str":
+                bands = list(range(-1, maxband + 1)) if s <= t else list(range(0, maxband + 1)) + [-1]
+            else:
+                bands = list(range(maxband, -1, -1)) + [-1] if s <= t else [0, -1] + list(range(1, maxband + 1))
+            for band in bands:
                 n += 1
                 got = edit_distance(a, b, band) if band != -1 or kind == "bytes" else edit_distance(a, b)
                 if band == -1 or d <= band:
